@@ -16,7 +16,8 @@ for d in sorted(glob.glob(os.path.join(HERE, "seeded", "*"))):
     if isinstance(files, list):
         files = ", ".join(files)
     rows.append((os.path.basename(d), e.get("property", ""), str(files)[:60], str(what).replace("\n", " ").replace("|", "/")[:260],
-                 "yes" if e.get("confirmed") else "no", "DETECTED" if e.get("detected") else "missed",
+                 "yes" if e.get("confirmed") else "no",
+                 "superseded" if e.get("superseded") else ("DETECTED" if e.get("detected") else "missed"),
                  "; ".join(sorted({l.split("replay=")[1].split("/")[-1].split()[0] for l in e.get("check_lines", []) if "replay=" in l}))[:80]))
 import sys
 lines = []
@@ -27,7 +28,9 @@ out("|---|---|---|---|---|---|")
 for r in rows:
     out("| %s | %s | %s %s | %s | %s | %s |" % (r[0], r[1], ("`%s`: " % r[2]) if r[2] else "", r[3], r[4], r[5], r[6]))
 out("")
-out("%d seeded changes, %d detected." % (len(rows), sum(1 for r in rows if r[5] == "DETECTED")))
+live = [r for r in rows if r[5] != "superseded"]
+out("%d seeded changes (+ %d superseded by a repair of /repo, see their meta.json), %d detected." % (
+    len(live), len(rows) - len(live), sum(1 for r in live if r[5] == "DETECTED")))
 if "--update" in sys.argv:
     dp = os.path.join(HERE, "DESIGN.md")
     d = open(dp).read()
